@@ -1,6 +1,8 @@
 (* C07 - keep-unique reports a block iff two keys coincide. *)
 From BW Require Import SpecKeys.
 From BWP Require Import TextFacts Keys_proofs.
+From BW Require Import Validators.
+From BWP Require Import Keys2_proofs.
 
 (* No violation iff the keys are pairwise distinct. *)
 Theorem C07_no_violation_iff : forall ks, ku_scan [] ks = None <-> NoDup (map k_val ks).
@@ -30,3 +32,28 @@ Print Assumptions C07_keys_trimmed.
 Theorem C07_at_most_one : forall o file b ds, keep_unique o file b = Ok ds -> (length ds <= 1)%nat.
 Proof. exact keep_unique_at_most_one. Qed.
 Print Assumptions C07_at_most_one.
+
+(* With a regex the keys are exactly, in order, one per matching line: the value group when it took part in the match, else the whole match. *)
+Theorem C07_keys_with_pattern o pat idx ls ks :
+  keys_rx o pat idx ls = Ok ks <-> KeysRx o pat idx ls ks.
+Proof. exact (keys_rx_spec o pat idx ls ks). Qed.
+Print Assumptions C07_keys_with_pattern.
+
+(* At validator level: no diagnostic iff the keys are pairwise distinct. *)
+Theorem C07_validator_ok_iff_distinct o file b pat content ks :
+  get_attr (T "keep-unique") (b_attrs b) = Some pat ->
+  content_of file b = Ok content ->
+  keys_of o pat E_UNIQUE_PATTERN content = Ok ks ->
+  (keep_unique o file b = Ok [] <-> NoDup (map k_val ks)).
+Proof. exact (keep_unique_ok_iff o file b pat content ks). Qed.
+Print Assumptions C07_validator_ok_iff_distinct.
+
+(* Otherwise the one diagnostic designates the first key whose value occurred before. *)
+Theorem C07_validator_reports_first_repeat o file b pat content ks k :
+  get_attr (T "keep-unique") (b_attrs b) = Some pat ->
+  content_of file b = Ok content ->
+  keys_of o pat E_UNIQUE_PATTERN content = Ok ks ->
+  first_dup ks k ->
+  keep_unique o file b = (let? sev := sev_of (b_attrs b) in Ok [key_diag b k V_UNIQUE sev []]).
+Proof. exact (keep_unique_first_dup o file b pat content ks k). Qed.
+Print Assumptions C07_validator_reports_first_repeat.
